@@ -544,6 +544,41 @@ func runC14Operand() *RunResult {
 			query = operand + " == " + literal()
 		}
 	}
+	combined := false
+	if chance(35) {
+		// the operand's term is one side of && or ||: whatever the other side says about a
+		// member, the function is still called for every value its own path selects
+		other := pick([]string{"@.zz", "!@.zz", "@.a", "!@.a", "@.a > 1", "@.b == 'x'", "@ != 1", "$.zz", "!$.zz"})
+		form := rn(4)
+		if form == 0 || form == 2 {
+			// The function's term on the RIGHT: the library of today skips the right side as a
+			// whole when the left side already decides for ALL members (none passes &&, all pass
+			// ||) and evaluates it for every member otherwise.  Only the second situation is
+			// used: the other term must hold for some members and not for others.
+			simrt.SetMode(simrt.ModeSolo)
+			pass := 0
+			if lf := soloParse(&PathSpec{Text: prefix + "[?(" + other + ")]"}, CfgSpec{}); lf.Fn != nil {
+				simrt.OpStart()
+				r, _ := safeCall(lf.Fn, deepCopy(doc.Val))
+				pass = len(r)
+			}
+			simrt.SetMode(simrt.ModeOff)
+			if pass == 0 || pass >= len(members) {
+				form = 1
+			}
+		}
+		switch form {
+		case 0:
+			query = other + " && " + query
+		case 1:
+			query = query + " && " + other
+		case 2:
+			query = other + " || " + query
+		default:
+			query = "(" + query + " || " + other + ") && !@.zz"
+		}
+		combined = true
+	}
 	text := prefix + "[?(" + query + ")]"
 	p := &PathSpec{Text: text, Prefix: prefix}
 
@@ -688,6 +723,9 @@ func runC14Operand() *RunResult {
 	drawSchedule(nt, &w.cfg)
 	res := w.run()
 	res.Probes["function-inside-filter-operand-case"]++
+	if combined && n > 0 {
+		res.Probes["operand-term-combined-with-another-term"]++
+	}
 	if rootRef && n > 0 {
 		res.Probes["operand-path-with-a-filter-that-refers-to-the-root"]++
 	}
